@@ -550,6 +550,10 @@ RCP<const Basic> sign(const RCP<const Basic> &arg)
                 return mul(minus_one, I);
             }
         }
+        if (is_a_Complex(*arg)) {
+            // a non-real number z: sign(z) = z/|z| (Sign never holds a Number)
+            return div(arg, abs(arg));
+        }
     }
     if (is_a<Constant>(*arg)) {
         if (eq(*arg, *pi) or eq(*arg, *E) or eq(*arg, *EulerGamma)
